@@ -375,6 +375,10 @@ func floatPow(a, b Float) (Object, error) {
 	if x == 0 && y < 0 && !math.IsInf(y, -1) {
 		return nil, ExceptionNewf(ZeroDivisionError, "0.0 cannot be raised to a negative power")
 	}
+	if x < 0 && !math.IsInf(x, 0) && !math.IsInf(y, 0) && !math.IsNaN(y) && y != math.Floor(y) {
+		// negative number to a fractional power is complex
+		return Complex(complex(x, 0)).M__pow__(Complex(complex(y, 0)), None)
+	}
 	r := math.Pow(x, y)
 	if math.IsInf(r, 0) && !math.IsInf(x, 0) && !math.IsInf(y, 0) {
 		return nil, ExceptionNewf(OverflowError, "(34, 'Numerical result out of range')")
